@@ -85,6 +85,9 @@ func (env *Env) call(x *ast.CallExpr) Val {
 	key := env.c.eng.keyOfFunc(fn)
 	spec := env.c.eng.Contracts.Funcs[key]
 	if spec == nil {
+		if v, ok := env.dispatchIface(x, fn, recvExpr); ok {
+			return v
+		}
 		if v, ok := env.inlineCall(x, fn, key, recvExpr); ok {
 			return v
 		}
@@ -187,6 +190,8 @@ func (env *Env) callSpec(x *ast.CallExpr, fn *types.Func, spec *FuncSpec, recvEx
 	}
 	var args []argInfo
 	// receiver
+	ro := env.recvOverride
+	env.recvOverride = nil
 	if sig.Recv() != nil && recvExpr != nil {
 		rt := sig.Recv().Type()
 		et := env.typeOf(recvExpr)
@@ -197,6 +202,12 @@ func (env *Env) callSpec(x *ast.CallExpr, fn *types.Func, spec *FuncSpec, recvEx
 			wantPtr = false
 		}
 		switch {
+		case ro != nil:
+			// interface dispatch: the receiver is the unboxed dynamic value (value receivers only)
+			if wantPtr {
+				env.fail(x.Pos(), "interface dispatch to a pointer-receiver method of %s", spec.Key)
+			}
+			ai.val = *ro
 		case wantPtr && !havePtr:
 			l := env.lvalue(recvExpr)
 			ai.val = Val{Loc: l, GoT: rt}
@@ -1153,6 +1164,119 @@ func (env *Env) abstractExternalCall(x *ast.CallExpr, fn *types.Func, key string
 		r := c.fresh("r_"+fn.Name(), c.eng.Sorts.SortOf(rt))
 		env.st.Assume(c.typeFacts(r, rt))
 		res = append(res, Val{T: r, GoT: rt})
+	}
+	switch len(res) {
+	case 0:
+		return Val{}, true
+	case 1:
+		return res[0], true
+	}
+	return Val{Tuple: res}, true
+}
+
+// dispatchIface handles a call of an interface method on a value of an interface that is modelled as a sum of concrete
+// types (bpf.Instruction): if every modelled type has a method of that name under contract, the call is the case
+// distinction over the dynamic type, each case a call by contract of the concrete method on the unboxed value. That
+// the dynamic type is one of the modelled types (in particular that the interface value is not nil) is an obligation
+// (safe:dispatch), to be provable from the caller's precondition. The callees must have no effect the caller can see.
+func (env *Env) dispatchIface(x *ast.CallExpr, fn *types.Func, recvExpr ast.Expr) (Val, bool) {
+	c := env.c
+	sig, ok := fn.Type().(*types.Signature)
+	if !ok || sig.Recv() == nil || recvExpr == nil {
+		return Val{}, false
+	}
+	if _, isIface := sig.Recv().Type().Underlying().(*types.Interface); !isIface {
+		return Val{}, false
+	}
+	rt0 := env.typeOf(recvExpr)
+	if rt0 == nil {
+		return Val{}, false
+	}
+	si := env.ss().Info(env.ss().SortOf(rt0))
+	if si == nil || si.Kind != KIface || len(si.Boxes) == 0 {
+		return Val{}, false
+	}
+	type target struct {
+		box  BoxInfo
+		fn   *types.Func
+		spec *FuncSpec
+	}
+	var ts []target
+	for _, b := range si.Boxes {
+		obj, _, _ := types.LookupFieldOrMethod(b.GoType, true, fn.Pkg(), fn.Name())
+		m, isFn := obj.(*types.Func)
+		if !isFn {
+			return Val{}, false
+		}
+		sp := c.eng.Contracts.Funcs[c.eng.keyOfFunc(m)]
+		if sp == nil {
+			return Val{}, false
+		}
+		ts = append(ts, target{b, m, sp})
+	}
+	rv := env.eval(recvExpr)
+	rt := env.term(rv, x.Pos())
+	var isAny []string
+	for _, t := range ts {
+		isAny = append(isAny, app("(_ is "+t.box.Ctor+")", rt.S))
+	}
+	env.safe("safe:dispatch", x.Pos(), or(isAny...), "the dynamic type of the receiver is one of the types under contract (not nil, not an unknown implementation)")
+	var res []Val
+	for i := 0; i < sig.Results().Len(); i++ {
+		t := sig.Results().At(i).Type()
+		res = append(res, Val{T: c.fresh("r_"+fn.Name(), c.eng.Sorts.SortOf(t)), GoT: t})
+	}
+	base := len(env.st.hyps)
+	var disj []string
+	for i, t := range ts {
+		sub := env.st.Clone()
+		sub.Assume(isAny[i])
+		sub.path = append(sub.path, "dyn:"+t.box.Sort)
+		subEnv := *env
+		subEnv.st = sub
+		subEnv.recvOverride = &Val{T: Term{app(t.box.Sel, rt.S), t.box.Sort}, GoT: t.box.GoType}
+		v := subEnv.callSpec(x, t.fn, t.spec, recvExpr)
+		if sub.dead {
+			continue
+		}
+		// no visible effect: everything the caller had is unchanged
+		for ob, tm := range env.st.vars {
+			if sub.vars[ob] != tm || sub.vers[ob] != env.st.vers[ob] {
+				env.fail(x.Pos(), "interface dispatch: %s changes caller state", t.spec.Key)
+			}
+		}
+		for k, sv := range env.st.spec {
+			if sub.spec[k].T != sv.T {
+				env.fail(x.Pos(), "interface dispatch: %s changes ghost state", t.spec.Key)
+			}
+		}
+		parts := append([]string(nil), sub.hyps[base:]...)
+		var vs []Val
+		switch {
+		case len(res) == 1:
+			vs = []Val{v}
+		case len(res) > 1:
+			vs = v.Tuple
+		}
+		if len(vs) != len(res) {
+			env.fail(x.Pos(), "interface dispatch: result arity of %s", t.spec.Key)
+		}
+		for j, rvj := range vs {
+			tj := env.term(rvj, x.Pos())
+			if tj.Sort != res[j].T.Sort {
+				env.fail(x.Pos(), "interface dispatch: result sort of %s", t.spec.Key)
+			}
+			parts = append(parts, eq(res[j].T.S, tj.S))
+		}
+		disj = append(disj, and(parts...))
+	}
+	switch len(disj) {
+	case 0:
+		env.st.dead = true
+	case 1:
+		env.st.Assume(disj[0])
+	default:
+		env.st.Assume("(or " + strings.Join(disj, " ") + ")")
 	}
 	switch len(res) {
 	case 0:
